@@ -594,7 +594,10 @@ def run(index: RepoIndex, rep) -> None:
               'fills start at the origin')
     # the rays of the ray-traced views start at the agent's own cell (C19.R2's ray model)
     from .c19 import RT, ray_model
-    cr = index.func(RT, 'compute_ray')
+    cr0 = index.func(RT, 'compute_ray')
+    from ..index import Func as _Func
+    from ..view import view as _view
+    cr = _Func(cr0.name, cr0.module, _view(index, cr0)[0], cr0.cls)
     crw = walk_function(cr.node)
     crp = [a.arg for a in cr.node.args.args]
     rm = ray_model(cr, crw, crp[0], crp[1])
